@@ -2,7 +2,7 @@
 import ast
 import re
 
-from ..core import AnalysisError, norm, short, walk_local
+from ..core import parent_chain, AnalysisError, norm, short, walk_local
 from ..typestate import classify_set
 from . import register
 from ..inline import inlined_view
@@ -99,9 +99,28 @@ def _n3(ctx, R):
     P = ctx.P
     ec = P.cls(NS_EDIF, "EdifNamespace")
     n = 0
-    for mname, f in sorted(ec.methods.items()):
+    from ..inline import inlined_view
+
+    def table_expr(v):
+        """self.edif_namespaces[T]  /  self.edif_namespaces.setdefault(T, {})  /  self.edif_namespaces.get(T, …): one type's identifier table"""
+        if isinstance(v, ast.Subscript) and norm(v.value) == "self.edif_namespaces":
+            return True
+        return isinstance(v, ast.Call) and isinstance(v.func, ast.Attribute) and v.func.attr in ("setdefault", "get") and norm(v.func.value) == "self.edif_namespaces"
+    for mname, f0 in sorted(ec.methods.items()):
+        # the methods are read with their private helpers (and any record of per-key settings such a helper hands back) in place
+        f = inlined_view(P, f0)
         # scopes: statements that follow `T = self.edif_namespaces[...]` (or `edif_namespace = set()`) in the same block
         scopes = []
+        direct = []
+        for x in walk_local(f.node):
+            # the table used without a local:  self.edif_namespaces[T].get(key) / [key] / key in …
+            if isinstance(x, ast.Subscript) and table_expr(x.value):
+                direct.append((x.slice, x, "index"))
+            elif isinstance(x, ast.Compare) and len(x.ops) == 1 and isinstance(x.ops[0], (ast.In, ast.NotIn)) and table_expr(x.comparators[0]):
+                direct.append((x.left, x, "membership test"))
+            elif isinstance(x, ast.Call) and isinstance(x.func, ast.Attribute) and table_expr(x.func.value) \
+                    and x.func.attr in ("get", "pop", "add", "discard", "remove", "setdefault") and x.args:
+                direct.append((x.args[0], x, x.func.attr))
         for a in walk_local(f.node):
             if isinstance(a, ast.Assign) and isinstance(a.targets[0], ast.Name):
                 v = a.value
@@ -121,7 +140,7 @@ def _n3(ctx, R):
                                     if isinstance(a2, ast.Assign) and norm(a2.targets[0]) == k_.id and isinstance(a2.value, ast.Call) \
                                             and isinstance(a2.value.func, ast.Attribute) and a2.value.func.attr in ("lower", "casefold"):
                                         is_id_set = True
-                if (isinstance(v, ast.Subscript) and norm(v.value) == "self.edif_namespaces") or is_id_set:
+                if table_expr(v) or is_id_set:
                     par = getattr(a, "_parent", None)
                     for blk in ("body", "orelse", "finalbody"):
                         stmts = getattr(par, blk, None)
@@ -132,7 +151,7 @@ def _n3(ctx, R):
                                     break
                                 rest.append(st)
                             scopes.append((a.targets[0].id, rest))
-        if not scopes:
+        if not scopes and not direct:
             continue
         lowered = {}
 
@@ -175,6 +194,16 @@ def _n3(ctx, R):
                             and x.func.value.id == tname and x.func.attr in ("get", "pop", "add", "discard", "remove", "setdefault") and x.args:
                         uses.append((x.args[0], x, x.func.attr, is_lowered(x.args[0])))
                         seen_nodes.add(id(x))
+        if direct:
+            lowered.clear()
+            for a in walk_local(f.node):
+                if isinstance(a, ast.Assign) and isinstance(a.targets[0], ast.Name):
+                    is_low = isinstance(a.value, ast.Call) and isinstance(a.value.func, ast.Attribute) and a.value.func.attr in ("lower", "casefold")
+                    lowered[a.targets[0].id] = lowered.get(a.targets[0].id, True) and is_low
+            for key, x, how in direct:
+                if id(x) not in seen_nodes:
+                    seen_nodes.add(id(x))
+                    uses.append((key, x, how, is_lowered(key)))
         for key, node, how, low in uses:
             n += 1
             if low:
@@ -200,6 +229,9 @@ def _n4_n5_n6(ctx, R):
         sets = {}
         for m in ("update", "remove", "no_conflict", "lookup"):
             f = cls.methods.get(m)
+            if f is not None:
+                from ..inline import inlined_view
+                f = inlined_view(P, f)
             if f is None:
                 if cls is ec:
                     R.bad("N4", "%s|%s missing" % (cls.key, m), cls.module.relpath, "EdifNamespace does not override %s: identifiers would be handled with the default (name-only) rule" % m)
@@ -224,7 +256,8 @@ def _n4_n5_n6(ctx, R):
     # N5
     n5 = 0
     for cls in (dc, ec):
-        f = cls.methods["update"]
+        from ..inline import inlined_view
+        f = inlined_view(P, cls.methods["update"])
         for branch in [n for n in walk_local(f.node) if isinstance(n, ast.If) and isinstance(n.test, ast.Compare) and norm(n.test.left) == "key"
                        and isinstance(n.test.ops[0], ast.Eq)]:
             keyc = n_const = branch.test.comparators[0]
@@ -435,6 +468,16 @@ def fallback_scan(ctx, R, rid):
             for c in ifs:
                 conds.extend(c.values if isinstance(c, ast.BoolOp) and isinstance(c.op, ast.And) else [c])
         else:
+            # a scan inside the protected block of a `try` ends at the first child that raises there: `try: for c in …: if value == c[key]: return c
+            # except KeyError: pass` gives up at the first child without the key
+            for p_ in parent_chain(node):
+                if isinstance(p_, ast.Try) and any(node is z for s_ in p_.body for z in ast.walk(s_)) and p_.handlers:
+                    R.bad(rid, "%s|%s scan inside try" % (gs.key, attr), gs.loc(p_),
+                          "the fallback scan over parent.%s runs inside `try … except %s`: the first child for which the body raises ends the whole scan, so a "
+                          "match after it is never found (exact patterns then miss what wildcard patterns find)"
+                          % (attr, ", ".join(norm(h.type) if h.type is not None else "everything" for h in p_.handlers)))
+                if isinstance(p_, (ast.FunctionDef, ast.AsyncFunctionDef)):
+                    break
             for x in ast.walk(node):
                 if isinstance(x, ast.Break):
                     R.bad(rid, "%s|%s break" % (gs.key, attr), gs.loc(x),
@@ -568,7 +611,7 @@ def _n7(ctx, R):
           "update; N3 every key touching the EDIF identifier tables is lower-cased; N4 update/remove/no_conflict/lookup handle the same "
           "key set per policy; N5 update deletes the old key before inserting; N6 the watched key set agrees across handlers and lookup "
           "registration; N7 every traversal of the containment schema covers the five relations with the right triple and the fallback "
-          "scan never stops early; N7b nothing attaches named children without the add notification; N8 every write of an element's data is announced; N9 the policy's legality test and the EDIF writer's validity test accept the same class of plain identifiers (first character, body). Decides that the index is told, "
+          "scan never stops early; N7b nothing attaches named children without the add notification; N8 every write of an element's data is announced; N9 the policy's legality test and the EDIF writer's validity test accept the same class of plain identifiers (first character, body); N10 every answer a policy method gives to a call site that tests it with `is False` is a genuine boolean. Decides that the index is told, "
           "checks first and normalises alike; does not decide that refusals happen exactly when a duplicate would arise.")
 def check_c10(ctx, R):
     R.rule("N8", "every write of an element's data dictionary in spydrnet/ir is preceded by the dictionary_* dispatch the name index listens to")
@@ -600,6 +643,70 @@ def check_c10(ctx, R):
     _n4_n5_n6(ctx, R)
     _n7(ctx, R)
     _n9(ctx, R)
+    _n10(ctx, R)
+
+
+def _n10(ctx, R):
+    """the manager refuses an edit when a policy's answer `is False`: an answer that is merely falsy (None from a regex match, 0, an
+    empty container) is not a refusal.  Every answer a policy method can give to such a question must therefore be a genuine boolean."""
+    R.rule("N10", "vetoes are genuine booleans: every value a policy method can return to a call site that tests it with `is False` / `is True` "
+                  "is boolean-valued (comparison, not, bool(), True / False, or the answer of another such method)")
+    P = ctx.P
+    nm = P.cls(NS_INIT, "NamespaceManager")
+    policies = [P.cls(NS_DEF, "DefaultNamespace"), P.cls(NS_EDIF, "EdifNamespace")]
+    asked = {}
+    for f in nm.all_funcs():
+        locals_ = {}
+        for a in walk_local(f.node):
+            if isinstance(a, ast.Assign) and len(a.targets) == 1 and isinstance(a.targets[0], ast.Name) and isinstance(a.value, ast.Call) \
+                    and isinstance(a.value.func, ast.Attribute):
+                locals_.setdefault(a.targets[0].id, []).append(a.value.func.attr)
+        for c in walk_local(f.node):
+            if isinstance(c, ast.Compare) and len(c.ops) == 1 and isinstance(c.ops[0], (ast.Is, ast.IsNot)) and isinstance(c.comparators[0], ast.Constant) \
+                    and isinstance(c.comparators[0].value, bool):
+                l = c.left
+                if isinstance(l, ast.Call) and isinstance(l.func, ast.Attribute):
+                    asked.setdefault(l.func.attr, (f, c))
+                elif isinstance(l, ast.Name):
+                    for m in locals_.get(l.id, []):
+                        asked.setdefault(m, (f, c))
+    n = 0
+
+    def boolean(e, cls, depth=0):
+        if isinstance(e, ast.Constant):
+            return isinstance(e.value, bool)
+        if isinstance(e, ast.Compare) or (isinstance(e, ast.UnaryOp) and isinstance(e.op, ast.Not)):
+            return True
+        if isinstance(e, ast.BoolOp):
+            return all(boolean(v, cls, depth) for v in e.values)
+        if isinstance(e, ast.Call) and isinstance(e.func, ast.Name) and e.func.id in ("bool", "isinstance", "all", "any", "callable", "hasattr", "issubclass"):
+            return True
+        if isinstance(e, ast.Call) and isinstance(e.func, ast.Attribute) and norm(e.func.value) in ("self", "cls", "super()", cls.name) and depth < 4:
+            owners = [k for k in policies if k is not cls] if norm(e.func.value) == "super()" else ([cls] + policies)
+            h = next((k.methods[e.func.attr] for k in owners if e.func.attr in k.methods), None)
+            return h is not None and answers_boolean(h, h.cls or cls, depth + 1)
+        return False
+
+    def answers_boolean(h, cls, depth=0):
+        rets = [r for r in walk_local(h.node) if isinstance(r, ast.Return)]
+        return bool(rets) and all(r.value is not None and boolean(r.value, cls, depth) for r in rets)
+    for mname, (f, c) in sorted(asked.items()):
+        for cls in policies:
+            h = cls.methods.get(mname)
+            if h is None:
+                continue
+            n += 1
+            bad = [r for r in walk_local(h.node) if isinstance(r, ast.Return) and not (r.value is not None and boolean(r.value, cls))]
+            # follow `return cls._helper(…)` to the return that is not a boolean
+            if bad:
+                r = bad[0]
+                R.bad("N10", "%s|non-boolean answer" % h.key, h.loc(r),
+                      "%s can answer `%s`, which is not a genuine boolean, but %s refuses only when the answer `%s`: a falsy non-False answer "
+                      "(None from a failed regex match) lets the edit through" % (h.qualname, short(r.value, 50) if r.value is not None else "None", f.qualname, short(c, 50)))
+            else:
+                R.ok("N10", "%s answers %s with booleans only" % (h.qualname, f.qualname), h.loc())
+    R.count("policy answers tested with `is False` (N10)", n)
+    R.floor("policy answers tested with `is False` (N10)", 3)
 
 
 
